@@ -55,6 +55,9 @@ pub struct PartySpec {
     /// getenv for.
     #[serde(default)]
     pub env_flip: Vec<String>,
+    /// Some(k): this process party may use exactly k CPUs (taskset / cpuset / small container)
+    #[serde(default)]
+    pub cpus: Option<u32>,
     /// "nodebug": this process party runs a build of the library without debug assertions and
     /// overflow checks (the way `cargo build --release` compiles it)
     #[serde(default)]
@@ -442,7 +445,7 @@ fn draw_party(p: &mut Prng, fns: &[String], nconsts: usize, light: bool) -> Part
             Step { fn_name: f, opts: o, mode, perm, cap, warm_src: None }
         })
         .collect();
-    PartySpec { keys, steps, process: false, alloc_limit: None, env_flip: vec![], build: None }
+    PartySpec { keys, steps, process: false, alloc_limit: None, env_flip: vec![], build: None, cpus: None }
 }
 
 const KEYWORDS: &[&str] = &[
@@ -604,7 +607,8 @@ pub fn make_world(plan: &Plan, seed: u64, idx: u64) -> (World, String, Prng) {
         // one cold process party, nothing else
         let keys = Keys { k0: p.next_u64(), k1: p.next_u64(), drift: 0 };
         let target = simple_step(&fns[0], Opts { register: false, dedup: true });
-        parties.push(PartySpec { keys, steps: vec![target], process: true, alloc_limit: None, env_flip: vec![], build: None });
+        parties.push(PartySpec { keys, steps: vec![target.clone()], process: true, alloc_limit: None, env_flip: vec![], build: None, cpus: None });
+        parties.push(PartySpec { keys, steps: vec![target], process: true, alloc_limit: None, env_flip: vec![], build: None, cpus: Some(2) });
     } else if family != "ill_typed" && !light {
         let keys = Keys { k0: p.next_u64(), k1: p.next_u64(), drift: 0 };
         let o = *p.pick(&Opts::all());
@@ -616,12 +620,18 @@ pub fn make_world(plan: &Plan, seed: u64, idx: u64) -> (World, String, Prng) {
             warm.push(warm_step(gen::program(&mut p)));
         }
         warm.push(target.clone());
-        parties.push(PartySpec { keys, steps: vec![target.clone()], process: true, alloc_limit: None, env_flip: vec![], build: None });
+        parties.push(PartySpec { keys, steps: vec![target.clone()], process: true, alloc_limit: None, env_flip: vec![], build: None, cpus: None });
         if plan.nodebug_parties {
             // the cold party's twin, running a release-style build of the library
-            parties.push(PartySpec { keys, steps: vec![target.clone()], process: true, alloc_limit: None, env_flip: vec![], build: Some("nodebug".into()) });
+            parties.push(PartySpec { keys, steps: vec![target.clone()], process: true, alloc_limit: None, env_flip: vec![], build: Some("nodebug".into()), cpus: None });
         }
-        parties.push(PartySpec { keys, steps: warm, process: true, alloc_limit: None, env_flip: vec![], build: None });
+        parties.push(PartySpec { keys, steps: warm, process: true, alloc_limit: None, env_flip: vec![], build: None, cpus: None });
+        // the cold party's twins on machines with 1 and 2 usable CPUs (large programs always, others sometimes)
+        if family == "big" || p.chance(1, 8) {
+            for k in [1u32, 2] {
+                parties.push(PartySpec { keys, steps: vec![target.clone()], process: true, alloc_limit: None, env_flip: vec![], build: None, cpus: Some(k) });
+            }
+        }
         // further processes with the same keys, under memory pressure: single allocations above
         // the limit fail. For large programs the limits 1..16 MiB are all tried: between the point
         // where a hash table can no longer grow and the point where the gate vector can no longer
@@ -644,15 +654,15 @@ pub fn make_world(plan: &Plan, seed: u64, idx: u64) -> (World, String, Prng) {
                 }
             }
             hist.push(target.clone());
-            parties.push(PartySpec { keys, steps: hist, process: true, alloc_limit: None, env_flip: vec![], build: None });
+            parties.push(PartySpec { keys, steps: hist, process: true, alloc_limit: None, env_flip: vec![], build: None, cpus: None });
         }
         if family == "big" {
             for lim in [1usize << 20, 2 << 20, 4 << 20, 8 << 20, 16 << 20] {
-                parties.push(PartySpec { keys, steps: vec![target.clone()], process: true, alloc_limit: Some(lim), env_flip: vec![], build: None });
+                parties.push(PartySpec { keys, steps: vec![target.clone()], process: true, alloc_limit: Some(lim), env_flip: vec![], build: None, cpus: None });
             }
         } else if p.chance(1, 6) {
             let lim = *p.pick(&[1usize << 20, 2 << 20, 4 << 20, 1 << 16, 1 << 18, 1 << 14]);
-            parties.push(PartySpec { keys, steps: vec![target], process: true, alloc_limit: Some(lim), env_flip: vec![], build: None });
+            parties.push(PartySpec { keys, steps: vec![target], process: true, alloc_limit: Some(lim), env_flip: vec![], build: None, cpus: None });
         }
     }
     (World { program: ProgSpec { name, src, consts }, parties, concurrent }, family.to_string(), p)
@@ -671,6 +681,7 @@ fn probe_parties(p: &mut Prng, n: usize, fn_name: &str, opts: Opts) -> Vec<Party
             alloc_limit: None,
             env_flip: vec![],
             build: None,
+            cpus: None,
         })
         .collect()
 }
@@ -993,6 +1004,9 @@ pub fn fidelity_child() -> i32 {
     if crate::seams::world().keys_handed != 1 {
         println!("KEYS-NOT-TAKEN");
         return 2;
+    }
+    if let Some(k) = party.cpus {
+        crate::seams::CPU_OVERRIDE.store(k as usize, std::sync::atomic::Ordering::SeqCst);
     }
     if let Some(lim) = party.alloc_limit {
         crate::ALLOC_LIMIT.store(lim, std::sync::atomic::Ordering::SeqCst);
